@@ -13,6 +13,7 @@ Structural clauses decided:
  R4 (also) each header yields exactly one header-order entry; R5 (also) narrowing conversions of the HTTP crate fit
 """
 from ..engine import cfg as C
+from ..engine import lists as L
 from ..engine import q as Q
 from ..engine import tables as TB
 from ..engine import terms as T
@@ -190,11 +191,13 @@ def rule_R4(ctx):
     P = ctx.program
     n = 0
     for fn in ("convert_http2_headers_to_http_format", "build_absent_headers_from_http2"):
-        b = P.body("huginn_net_http::http2_process::" + fn)
-        S = T.Slicer(b, P)
-        for blk, t in Q.calls(b, "::contains"):
+        b0 = P.body("huginn_net_http::http2_process::" + fn)
+        # the function and the closures it creates (a `map(|header| ..)` body is the loop body of the iterator spelling)
+        for b in L.with_closures(P, b0):
+          S = T.Slicer(b, P)
+          for blk, t in Q.calls(b, "::contains"):
             a = Q.call_args(b, S, blk, t)
-            hay, needle = a[0], a[1]
+            hay, needle = T.expand_upvars(P, b, a[0], depth=6), T.expand_upvars(P, b, a[1], depth=6)
             needle_lower = T.has_call(needle, "to_lowercase") or T.has_call(needle, "to_ascii_lowercase")
             hay_lower = T.has_call(hay, "to_lowercase") or T.has_call(hay, "to_ascii_lowercase")
             for x in T.walk(hay):
@@ -221,7 +224,8 @@ def rule_R4(ctx):
             else:
                 ctx.check(not hay_lower, "R4", inst, "neither side case-folded", "list is lower-cased but the name is not", ctx.loc(b, blk))
         # case-insensitive comparisons (eq_ignore_ascii_case) in the function or its closures are case-fold-safe by construction
-        for cb in [b] + [x for x in P.bodies.values() if x.path.startswith(b.path + "::{closure#")]:
+        b = b0
+        for cb in L.with_closures(P, b0):
             for blk, t in cb.calls():
                 if callee_of(t).endswith("eq_ignore_ascii_case"):
                     n += 1
@@ -299,12 +303,20 @@ def rule_R5(ctx, rule="R5"):
     fp = P.method1(H2, "find_primary_stream")
     SF = T.Slicer(fp, P)
     okp = False
+
+    def _selects(cs2):
+        gt0 = any(c[0] == "cmp" and c[1] in ("Gt", "Ne") and c[4] and T.fold_int(c[3]) == 0 and any(x[0] == "field" and x[2] == "stream_id" for x in T.walk(c[2])) for c in cs2)
+        hdr = any(c[0] == "variant" and c[2] == "Headers" and c[3] for c in cs2)
+        return gt0 and hdr
+    backwards = [t for _, t in Q.calls(fp, ["::rev", "::rfind", "::last", "next_back", "::rposition"])]
     for (rb, j2, term, _c) in TB.return_sites(fp, P):
         if term[0] == "agg" and term[3] == "Some":
-            cs2 = Q.canon_conds(P, T.dom_conds(fp, SF, rb))
-            gt0 = any(c[0] == "cmp" and c[1] in ("Gt", "Ne") and c[4] and T.fold_int(c[3]) == 0 and any(x[0] == "field" and x[2] == "stream_id" for x in T.walk(c[2])) for c in cs2)
-            hdr = any(c[0] == "variant" and c[2] == "Headers" and c[3] for c in cs2)
-            okp = gt0 and hdr
+            okp = _selects(Q.canon_conds(P, T.dom_conds(fp, SF, rb)))
+        # the same selection as `frames.iter().find(|f| ..).map(|f| f.stream_id)`
+        for (call, cs2) in Q.predicate_conds(P, term):
+            if call[1].endswith("::find") and _selects(cs2):
+                okp = True
+    okp = okp and not backwards
     ctx.check(okp, rule, "find_primary_stream", "first HEADERS frame with stream_id > 0", "primary stream is not selected as the first HEADERS frame on a non-zero stream", ctx.loc(fp))
 
 
